@@ -233,6 +233,33 @@ def ob_reverse_expr(r: bool, start: int, size: int, orphan: int, overlap: int) -
     return shown == list(range(start - 1, start - 1 + size)) and in_order(it.pulled) and len(it.pulled) <= start - 1 + size + size + orphan
 
 
+T_LAZY_PREVB = cooked('<dtml-in it mapping start=st size=sz orphan=orp overlap=ov><dtml-call "rec(v)"><dtml-if sequence-start><dtml-in previous-batches mapping><dtml-call "rec2(_[\'batch-start-index\'])"></dtml-in></dtml-if></dtml-in>')
+T_LAZY_SE = cooked('<dtml-in it mapping start=st end=en orphan=orp><dtml-call "rec(v)"><dtml-if sequence-end><dtml-call "rec2(_[\'next-sequence\'])"></dtml-if></dtml-in>')
+
+
+def ob_previous_batches(start: int, size: int, orphan: int, overlap: int) -> bool:
+    """previous-batches only needs elements BEFORE the window: the lazy bound still applies (an unbounded iterator terminates)"""
+    it = Counting(None)
+    shown, prevs = [], []
+    try:
+        T_LAZY_PREVB(it=it, st=start, sz=size, orp=orphan, ov=overlap, rec=shown.append, rec2=prevs.append)
+    except PullCap:
+        return False
+    return shown == list(range(start - 1, start - 1 + size)) and in_order(it.pulled) and len(it.pulled) <= start - 1 + size + size + orphan
+
+
+def ob_start_end(start: int, length: int, orphan: int) -> bool:
+    """window given by start= and end= (no size=): the look-ahead batch has the window's own size"""
+    end = start + length - 1
+    it = Counting(None)
+    shown = []
+    try:
+        T_LAZY_SE(it=it, st=start, en=end, orp=orphan, rec=shown.append, rec2=lambda x: None)
+    except PullCap:
+        return False
+    return shown == list(range(start - 1, end)) and in_order(it.pulled) and len(it.pulled) <= end + length + orphan
+
+
 def ob_unbatched(n: int) -> bool:
     """unbatched rendering pulls every element exactly once"""
     it = Counting(n)
@@ -262,3 +289,7 @@ OBLIGATIONS.append(Ob('unbounded_next', ob_unbounded_next, PREU, timeout=tier(25
 OBLIGATIONS.append(Ob('getitem_seq', ob_getitem_seq, PRE, timeout=tier(280, 1200), data='as finite_start', selectors='lazy sequence with __getitem__/__len__ (no iterator wrapper)'))
 OBLIGATIONS.append(Ob('unbatched', ob_unbatched, ['0 <= n <= %d' % tier(6, 10)], timeout=tier(200, 600), data='iterator length n', selectors='unbatched dtml-in over an iterator'))
 OBLIGATIONS.append(Ob('reverse_expr_false', ob_reverse_expr, PREU, timeout=tier(250, 900), data='truth value of reverse_expr, start, size, orphan, overlap', selectors='batched dtml-in with reverse_expr over an unbounded iterator (finite when the expression is true)'))
+OBLIGATIONS.append(Ob('previous_batches', ob_previous_batches, ['2 <= start <= 7', '1 <= size <= 3', '0 <= orphan <= 2', '0 <= overlap <= 1', 'overlap < size'], timeout=tier(280, 900),
+                      data='start 2..7, size 1..3, orphan 0..2, overlap < size', selectors='body reads previous-batches; unbounded iterator'))
+OBLIGATIONS.append(Ob('start_end_no_size', ob_start_end, ['1 <= start <= 5', '1 <= length <= 6', '0 <= orphan <= 2'], timeout=tier(280, 900),
+                      data='start 1..5, window length 1..6 (end = start+length-1), orphan 0..2', selectors='start= and end= without size=; unbounded iterator'))
